@@ -20,6 +20,7 @@ def r7(ctx):
 
 
 RULES = {
+    "C09.RL": lambda ctx: __import__("rules.common", fromlist=["x"]).loop_exit_rule(ctx, "C09.RL", {'types::SourceMap::rewrite_with_mapping': 0, 'builder::SourceMapBuilder::strip_prefixes': 1}),
     "C09.R1": lambda ctx: bldrules.add_with_id(ctx, "C09.R1"),
     "C09.R2": lambda ctx: bldrules.interning(ctx, "C09.R2"),
     "C09.R3": lambda ctx: bldrules.rewrite_loop(ctx, "C09.R3"),
